@@ -23,6 +23,7 @@ import json
 import logging
 
 import common as C
+import re_probes as RP
 import pyexpr as P
 
 MANIFEST = {
@@ -704,6 +705,7 @@ def run(ctx, model=True):
             res.samples.append({"case": cases[i], "impl": [{k: a.get(k) for k in ("o", "md", "doc")} for a in obss[i]["attempts"]], "model": json.loads(replies[i])["attempts"]})
     else:
         res.samples.append({"case": cases[-1], "impl": obss[-1]})
+    RP.add_to(res, ["metadata-store"])
     return res
 
 
@@ -712,6 +714,9 @@ def run_impl_only(ctx):
 
 
 def replay(ctx, data):
+    r = RP.replay(data)
+    if r is not None:
+        return r
     logging.getLogger("bluesky").setLevel(logging.CRITICAL)
     res = C.Result()
     case = data.get("case")
